@@ -205,9 +205,11 @@ class MixRunner(object):
       try:
         v = next(src) if (self.unext and self.der is not None) else src.take()
         if self.vk in ("list", "bytearray"):
-          if v is self.zero_obj: return ["raise", "SampleIsZeroObject"]
-          if any(v is w for w in self.seen): return ["raise", "SampleIsEarlierSample"]
-          self.seen.append(v)
+          # a sample with nothing due may BE the zero object ("continues with the zero value"): allowed; its content
+          # is compared like any other sample and the zero is re-checked at the end.  Any other sample must be fresh.
+          if v is not self.zero_obj:
+            if any(v is w for w in self.seen): return ["raise", "SampleIsEarlierSample"]
+            self.seen.append(v)
         return ["item", obs_val(self.vk, v) if self.vk else fr(to_frac(v))]
       except StopIteration:
         return ["stop"]
